@@ -140,6 +140,9 @@ func checkC11(c *Ctx, e *Env) {
 				if !nilMin || !nilWin {
 					fail("date", "years-in-the-past used although another criterion is set")
 				}
+				if v, known := st.known("Eq(0, " + dc + ".YearsInThePast)"); !known || v {
+					fail("date", "the years-in-the-past bound is applied on a path where YearsInThePast != 0 has not been established: a basket whose criteria message is present but empty (no criterion at all) would refuse every batch that starts before 1 January of the block year")
+				}
 				want := "Date((Time.Year(blocktime) - " + dc + ".YearsInThePast), 1, 1, 0, 0, 0, 0, global:time.UTC)"
 				if minv != want {
 					fail("date", "minimum date is not 1 January 00:00 of (block year − N): "+minv)
